@@ -539,7 +539,7 @@ func TestVerifC08(t *testing.T) {
 	TestUseLowSecurityKDFParameters(t)
 	restic.TestDisableCheckPolynomial(t)
 	ctx := context.Background()
-	nHist := env.Pick(400, 6000)
+	nHist := env.Pick(400, 2400)
 	stepKinds := map[string]int64{}
 
 	for ci := 0; ci < nHist; ci++ {
